@@ -158,6 +158,8 @@ func verifSameBytes(a, b []byte) bool {
 func verifRunTool(in []byte, delim byte, chunk int, producers map[string]*nsq.Producer) (error, int) {
 	t := "c20topic"
 	topic = &t
+	// the reference split has already case-split on every in[i]==delim: let IndexByte use that
+	verifrt.UsePathFacts()
 	r := bufio.NewReaderSize(&verifChunkStream{data: in, chunk: chunk}, 16)
 	calls := 0
 	for {
@@ -216,7 +218,7 @@ func verifCheckDests(ref verifRef) {
 // that accept: each destination receives exactly the non-empty records, byte-exact, in order,
 // and the loop ends with io.EOF.
 func VerifC20_ToNsqTerminatedRecords() {
-	in := verifrt.Bytes("in", verifrt.Bound("input", 6, 9))
+	in := verifrt.Bytes("in", verifrt.Bound("input", 8, 12))
 	delim := verifrt.Byte("delim")
 	verifrt.Assume(len(in) == 0 || in[len(in)-1] == delim)
 	ref := verifSplit(in, delim)
@@ -237,7 +239,7 @@ func VerifC20_ToNsqTerminatedRecords() {
 // The same for a stream whose final record has no trailing delimiter: it must be published
 // whole (and once), after all terminated records.
 func VerifC20_ToNsqFinalRecord() {
-	in := verifrt.Bytes("in", verifrt.Bound("input", 5, 8))
+	in := verifrt.Bytes("in", verifrt.Bound("input", 7, 11))
 	delim := verifrt.Byte("delim")
 	verifrt.Assume(len(in) > 0 && in[len(in)-1] != delim)
 	ref := verifSplit(in, delim)
@@ -255,7 +257,7 @@ func VerifC20_ToNsqFinalRecord() {
 // most two delimiters, delivered in chunks, all records terminated.
 func VerifC20_ToNsqBufferBoundary() {
 	lo := 17
-	n := lo + verifrt.Choice("extra", verifrt.Bound("extra", 2, 5))
+	n := lo + verifrt.Choice("extra", verifrt.Bound("extra", 3, 6))
 	in := verifrt.BytesN("in", n)
 	delim := verifrt.Byte("delim")
 	nDel := 0
@@ -264,7 +266,7 @@ func VerifC20_ToNsqBufferBoundary() {
 			nDel++
 		}
 	}
-	verifrt.Assume(nDel <= 1)
+	verifrt.Assume(nDel <= verifrt.Bound("innerDelimiters", 1, 2))
 	verifrt.Assume(in[n-1] == delim)
 	ref := verifSplit(in, delim)
 	producers := verifNewDests(1, []int{-1})
@@ -284,7 +286,7 @@ func VerifC20_ToNsqBufferBoundary() {
 // non-nil, non-EOF error, on which main() stops), and everything handed over before it was
 // exact and in order.
 func VerifC20_ToNsqPublishError() {
-	in := verifrt.Bytes("in", verifrt.Bound("input", 4, 7))
+	in := verifrt.Bytes("in", verifrt.Bound("input", 6, 9))
 	delim := verifrt.Byte("delim")
 	verifrt.Assume(len(in) == 0 || in[len(in)-1] == delim)
 	ref := verifSplit(in, delim)
